@@ -183,6 +183,18 @@ func (Engine) drawPlan(rt *rapid.T, prop, tier string) any {
 			p.Blocks = append(p.Blocks, BlockPlan{})
 		}
 		p.Proto.MTB = []uint32{8, 12, 20}[rapid.IntRange(0, 2).Draw(rt, "mtblong")]
+		if rapid.IntRange(0, 3).Draw(rt, "verylong") == 0 {
+			// a traceable window of more than two header hash pages on a chain of more than four plus the window: the
+			// garbage collection of header hash pages and blocks works next to pages that are still needed
+			p.Proto.MTB = uint32(rapid.IntRange(34, 44).Draw(rt, "mtbverylong"))
+			for n := rapid.IntRange(60, 90).Draw(rt, "nemptymore"); n > 0; n-- {
+				b := BlockPlan{}
+				if n%7 == 0 {
+					b.Ops = []Op{{Kind: OpLedgerRead, A: n % numAccounts, B: n % numContracts, N: int64(n), X: n % 4, Y: (n / 7) % 4}}
+				}
+				p.Blocks = append(p.Blocks, b)
+			}
+		}
 	}
 	nrep := rapid.IntRange(1, 3).Draw(rt, "nrep")
 	for i := 0; i < nrep; i++ {
